@@ -109,6 +109,7 @@ def gen_case(rng, tier, g):
     return {'prop': PROP, 'stack': stack, 'tables': tables, 'steps': steps,
             # the sources are simulated tables handing out the caller's row
             # objects, or the caller's plain lists themselves
+            'fluent': rng.random() < 0.15,
             'src': rng.choice(['sim', 'plain'] if stack[0][0] == 'cache'
                               else ['sim', 'sim', 'plain']),
             'shape': shape, 'consumer': rng.choice(CONSUMERS),
@@ -191,6 +192,7 @@ def run_case(case):
             tables = [dec_table(t) for t in case['tables']]
             snap_src = snapshot(tables)
             w, views = build(e, stack, None,
+                             fluent=bool(case.get('fluent')),
                              mode='plain' if case.get('src') == 'plain'
                              else 'alias', tempdir=sb.path,
                              tables=tables,
